@@ -25,6 +25,10 @@ def handle1 (op : String) (args : List String) : Option String :=
   | "h2", [a, b] => do
     let a ← parseArr? a; let b ← parseArr? b
     some (showRes (fun p => showArr p.1 ++ ";" ++ showArr p.2) (a.broadcastH2 0 b))
+  -- the same helper, observed by the harness through its second public lift (`round`)
+  | "h2r", [a, b] => do
+    let a ← parseArr? a; let b ← parseArr? b
+    some (showRes (fun p => showArr p.1 ++ ";" ++ showArr p.2) (a.broadcastH2 0 b))
   | "h3", [a, b, c] => do
     let a ← parseArr? a; let b ← parseArr? b; let c ← parseArr? c
     some (showRes (fun p => showArr p.1 ++ ";" ++ showArr p.2.1 ++ ";" ++ showArr p.2.2) (a.broadcastH3 0 b c))
@@ -60,6 +64,10 @@ def handleN (op : String) (args : List String) : Option String :=
   | "broadcast", [a, b] => do
     let sa ← shapeOf? a; let sb ← shapeOf? b
     some (showShapeRes (broadcastShape sa sb) none)
+  -- broadcast_h2 on zero-free shapes: the shape of both results is `broadcastShape` (theorem broadcastH2_at)
+  | "h2r", [a, b] => do
+    let sa ← shapeOf? a; let sb ← shapeOf? b
+    some (showShapeRes (broadcastShape sa sb) none)
   | "zip", [a, b] => do
     let sa ← shapeOf? a; let sb ← shapeOf? b
     some (showShapeRes (broadcastShape sb sa) (some sa))
@@ -79,6 +87,9 @@ def handle (op : String) (args : List String) : Option String :=
     let answers ← parts.mapM (fun p => match p with | o :: as => handle1 o as | [] => none)
     some (" / ".intercalate answers)
   | "n", o :: as => handleN o as
+  -- `g <call>`: giant operands (more than 2^20 result elements); the same shape-only answer
+  | "g", o :: as => handleN o as
+  | "g2", o :: as => handleN o as
   -- bookkeeping lines of the harness (how often its native reference was compared with the model)
   | "oracle_report", _ => some "ok report"
   | _, _ => handle1 op args
